@@ -486,8 +486,8 @@ def main(argv):
             nbin = int(100000 * a.scale)
         else:
             cfgs = (a.configs.split(",") if a.configs else ALL_CONFIGS)
-            per = int(2000000 * a.scale)
-            nbin = int(4000000 * a.scale)
+            per = int(1000000 * a.scale)
+            nbin = int(2000000 * a.scale)
         exes = build_many(cfgs)
         # sanity: moduli constants agree with the library (q-1 == MINUS_ONE)
         for c in cfgs:
@@ -497,7 +497,7 @@ def main(argv):
             for n, r in zip(nms, out):
                 if r != "OK " + FIELDS[n].enc(FIELDS[n].q - 1):
                     raise Inconclusive("modulus constant mismatch for %s on %s: %s" % (n, c, r))
-        m = run_sharded("c01", "gen", (names, per // NCPU + 1, nbin // NCPU + 1), [(c, exes[c]) for c in cfgs], a.seed)
+        m = run_rounds(1 if a.tier == "quick" else 3, "c01", "gen", (names, per // NCPU + 1, nbin // NCPU + 1), [(c, exes[c]) for c in cfgs], a.seed)
         rep.merge(m)
         rep.require("add:sum>=2^w", "add:sum-second-fold", "sub:borrow", "sub:re-borrow", "mul:operand>=q", "add:operand>=2q",
                     "mul:topbit", "mul:result-0/1/-1", "b127:mul-bit127-set", "xsquare:n=255", "mul_small:x=max", "chain:len8", "lazy:2-steps")
